@@ -697,7 +697,7 @@ pub fn prop() -> DiceProp {
         nightly: false,
         check_only: false,
         ndice: 96,
-        quick: (900, 1),
+        quick: (2500, 1),
         thorough: (4000, 8),
         build,
         fixed: no_fixed,
